@@ -133,9 +133,9 @@ Lemma seq_strictly_sorted_keys : forall l : list (nat * X),
   (exists k n, map fst l = seq k n) -> StronglySorted key_lt l.
 Proof.
   induction l as [|a l IH]; intros (k & n & H); [constructor|].
-  destruct n as [|n]; [discriminate|]. simpl in H. inversion H as [[Ha Hl]].
+  destruct n as [|n]; [discriminate|]. simpl in H. injection H as Ha Hl.
   constructor.
-  - apply IH. now exists (S k), n.
+  - apply IH. exists (S k), n. exact Hl.
   - rewrite Forall_forall. intros y Hy. apply (in_map fst) in Hy. rewrite Hl in Hy.
     apply in_seq in Hy. simpl. lia.
 Qed.
@@ -191,9 +191,9 @@ Qed.
 
 (* mpire's pool as a Section variable; its contract: every task's result is delivered exactly once,
    in an arbitrary order (pool.py: map_unordered / imap_unordered) *)
-Variable pool : list (nat * list A) -> list (nat * list B).
-Hypothesis pool_delivers_each_result_once : forall tasks,
-  Permutation (pool tasks) (map (fun t => (fst t, computation f (snd t))) tasks).
+Variable pool : (list A -> list B) -> list (nat * list A) -> list (nat * list B).
+Hypothesis pool_delivers_each_result_once : forall g tasks,
+  Permutation (pool g tasks) (map (fun t => (fst t, g (snd t))) tasks).
 
 (* ★ parallel_equals_serial *)
 Theorem parallel_equals_serial : forall (n_jobs : positive) (xs : list A),
@@ -223,11 +223,12 @@ Proof.
   - assert (H : forall (l pre : list (nat * list A)), tasks = pre ++ l ->
                  flat_map h (seq (length pre) (length l)) = map (fun t => (fst t, g (snd t))) l).
     { induction l as [|a l IH]; intros pre E; simpl; [reflexivity|].
-      unfold h at 1. rewrite E. rewrite nth_error_app2 by lia. rewrite Nat.sub_diag. simpl.
-      f_equal. rewrite <- E.
+      assert (Hn : nth_error tasks (length pre) = Some a).
+      { rewrite E. rewrite nth_error_app2 by lia. now rewrite Nat.sub_diag. }
+      unfold h at 1. rewrite Hn. simpl. f_equal.
       replace (S (length pre)) with (length (pre ++ [a])) by (rewrite app_length; simpl; lia).
       apply IH. rewrite <- app_assoc. exact E. }
-    rewrite (H tasks [] eq_refl). apply Permutation_refl.
+    specialize (H tasks [] eq_refl). simpl in H. rewrite H. apply Permutation_refl.
 Qed.
 
 (* ------------------------------------------------------------------ final transpose *)
